@@ -339,7 +339,7 @@ class C13(Check):
         'Property.value (the comment-free serialisation of the parsed value, K4) is an INPUT of the model; its '
         'invariance under spelling and round trip is checked on the implementation only (oracle)',
         're.I = ASCII case folding on the generated alphabets; the four non-ASCII letters that CPython folds onto '
-        'ASCII (U+0130 U+0131 U+017F U+212A) are an implementation-only stream (known finding C13-unicode-casefold)',
+        'ASCII (U+0130 U+0131 U+017F U+212A) are an implementation-only stream (known finding C13-unicode-regex-classes)',
         'Property.value never ends in a line feed (checked by the oracle on every generated property)',
     )
     rule = ('acc: every (profile, property) pattern x values sampled from its own Re AST, from other patterns, and '
@@ -403,9 +403,11 @@ class C13(Check):
         with time_limit(10):
             return self.cu.parseString(css, **kw)
 
-    def value_for(self, name, rng):
+    def value_for(self, name, rng, own=0.5):
         """a value text for property `name`: own grammar / other grammar / near miss -> (text, kind)"""
         r = rng.random()
+        if own > 0.5:
+            r = r * 0.5 / own if r < own else 0.5 + (r - own) * 0.5 / (1 - own)
         if name in self.by_name and r < 0.5:
             return sample(rng.choice(self.by_name[name]), rng), 'own'
         if r < 0.7:
@@ -462,7 +464,7 @@ class C13(Check):
     # -- correspondence: patterns ------------------------------------------------------------------
     def corr_acc(self, ctx):
         rng = ctx.sub_rng('acc')
-        per = ctx.n(36, 700)
+        per = ctx.n(80, 700)
         lines, exp = [], []
         for i, pn, name, ast_ in self.entries:
             rx = self.P._profilesProperties[pn][name]
@@ -482,7 +484,7 @@ class C13(Check):
                     v, kind = rng.choice(['', ' ', 'inherit', 'INHERIT', 'inherit\n', '\ninherit', 'none', '0', 'auto',
                                           '1px', 'red', 'inherit ', 'x' * 30, 'a b c d e f g h']), 'fixed'
                 if len(v) > 120:
-                    v = v[:120]
+                    v, kind = v[:120], kind + '-truncated'
                 with time_limit(10):
                     got = '1' if rx(v) else '0'
                 ctx.case(key=('acc', name, pn, v), nontrivial=(got == '1' or kind.startswith('near')),
@@ -514,7 +516,7 @@ class C13(Check):
             x = list(x)
             return ','.join(enc(p) for p in x) if x else 'E'
 
-        for _ in range(ctx.n(1500, 30000)):
+        for _ in range(ctx.n(2500, 30000)):
             name = rng.choice(self.names) if rng.random() < 0.85 else rng.choice(['x', 'colour', '', 'COLOR', '-moz-x'])
             v, kind = self.value_for(name, rng)
             d = rng.choice(defaults)
@@ -610,7 +612,7 @@ class C13(Check):
             v = {'font-family': rng.choice(['x', '"A B"', 'a b']), 'src': rng.choice(['url(x)', 'local(a)', 'url(a) format("b")'])}[name]
             kind = 'own'
         else:
-            v, kind = self.value_for(name, rng)
+            v, kind = self.value_for(name, rng, own=0.8)
         if not safe_value(v) or not v.strip():
             v, kind = rng.choice(['inherit', 'none', '1px', 'red', '4', 'auto']), 'fixed'
         prio = rng.choice(['', '', '', '', ' !important', '!IMPORTANT', ' ! important', ' !x'])
@@ -655,7 +657,7 @@ class C13(Check):
 
     def corr_props_and_sheets(self, ctx):
         rng = ctx.sub_rng('sheets')
-        sheets = [self.gen_sheet(rng) for _ in range(ctx.n(700, 14000))]
+        sheets = [self.gen_sheet(rng) for _ in range(ctx.n(1200, 14000))]
         self.check_sheets(ctx, sheets, 'gen')
 
     def check_sheets(self, ctx, sheets, tag):
@@ -743,7 +745,7 @@ class C13(Check):
         rng = ctx.sub_rng('spell')
         cu = self.cu
         lines, exp = [], []
-        for _ in range(ctx.n(500, 10000)):
+        for _ in range(ctx.n(1200, 10000)):
             name = rng.choice(self.names) if rng.random() < 0.93 else rng.choice(['x', 'colour'])
             v, kind = self.value_for(name, rng)
             v = ' '.join(v.split())
@@ -866,7 +868,7 @@ class C13(Check):
                 if 'C' in types and not member:
                     continue            # CSS3 colour names (all profiles are active) are not judged here
                 cases.append((name, k, member, 'st-kw'))
-            for _ in range(ctx.n(10, 120)):
+            for _ in range(ctx.n(20, 120)):
                 t = rng.choice(types)
                 cases.append((name, gen_typed(t, rng), True, 'st-member:' + t))
             for _ in range(ctx.n(6, 60)):
@@ -924,7 +926,7 @@ class C13(Check):
     def oracle_annotates(self, ctx):
         rng = ctx.sub_rng('annot')
         cu = self.cu
-        for _ in range(ctx.n(250, 5000)):
+        for _ in range(ctx.n(400, 5000)):
             css = self.gen_sheet(rng)
             variants = {}
             with time_limit(20):
@@ -1002,8 +1004,10 @@ class C13(Check):
 
     # -- oracle: non-ASCII letters that re.I folds onto ASCII (implementation only) ---------------------
     def oracle_unicode_fold(self, ctx):
+        """keywords with U+212A/U+017F/U+0131/U+0130 for k/s/i, integers and lengths with non-ASCII decimal digits:
+        CSS 2.1 keywords are ASCII case-insensitive and numbers are ASCII digits, so none of these is a member"""
         rng = ctx.sub_rng('ufold')
-        sub = {'k': 'K', 's': 'ſ', 'i': 'ı', 'I': 'İ', 'K': 'K', 'S': 'ſ'}
+        sub = {'k': '\u212a', 's': '\u017f', 'i': '\u0131', 'I': '\u0130', 'K': '\u212a', 'S': '\u017f'}
         cases = []
         for name, kws in sorted(self.kwspec.items()):
             for k in kws:
@@ -1011,17 +1015,35 @@ class C13(Check):
                 if idx:
                     i = rng.choice(idx)
                     cases.append((name, k[:i] + sub[k[i]] + k[i + 1:]))
+        for name, (types, kws) in sorted(SINGLE_TYPE.items()):
+            for k in kws:
+                idx = [i for i, c in enumerate(k) if c in sub]
+                if idx:
+                    i = rng.choice(idx)
+                    cases.append((name, k[:i] + sub[k[i]] + k[i + 1:]))
+            for t in types.upper():
+                if t in 'LPNI':
+                    d = rng.choice('\u0663\u0967\uff15')        # ARABIC-INDIC 3, DEVANAGARI 1, FULLWIDTH 5
+                    cases.append((name, {'L': d + 'px', 'P': '1' + d + '%', 'N': d, 'I': '-' + d}[t]))
         rng.shuffle(cases)
-        for name, v in cases[:ctx.n(40, 400)]:
+        for name, v in cases[:ctx.n(80, 600)]:
             css = 'a{%s:%s}' % (name, v)
             s = self.parse(css)
             ps = s.cssRules[0].style.getProperties(all=True) if s.cssRules.length else []
             got = bool(ps and ps[0].valid)
-            ctx.case(key=('ufold', name, v), nontrivial=True, kind='unicode-fold:%d' % got)
+            ctx.case(key=('ufold', name, v), nontrivial=True, kind='unicode-classes:%d' % got)
             if got:
-                ctx.violate('for keyword-list properties the verdict agrees with the CSS 2.1 grammar '
-                            '(keywords are ASCII case-insensitive only)', {'css': css, 'property': name, 'value': v},
-                            {'valid': True}, known='C13-unicode-casefold')
+                ctx.violate('for keyword-list and single-type properties the verdict agrees with the CSS 2.1 grammar '
+                            '(keywords are ASCII case-insensitive, numbers are written with ASCII digits)',
+                            {'css': css, 'property': name, 'value': v}, {'valid': True},
+                            known=self.unicode_region(v))
+
+    @staticmethod
+    def unicode_region(v):
+        import unicodedata
+        if any(c in FOLD_SPECIAL or (ord(c) > 127 and unicodedata.category(c) == 'Nd') for c in v):
+            return 'C13-unicode-regex-classes'
+        return None
 
     # ------------------------------------------------------------------------------------------
     def known(self, ctx, finding):
